@@ -79,3 +79,35 @@ Qed.
 
 Definition n_panics_typed : nat := List.length (filter pa_typed panic_sites).
 Definition n_panics_other : nat := List.length (filter (fun p => negb (pa_typed p)) panic_sites).
+
+(* ---- API layer and stdio service (pkg/api, cmd/esbuild, pkg/cli) ----
+   [service_spawn_sites] lists their goroutines with BUILD-level sinks (api.Build/Transform/Context,
+   bundler.ScanBundle, Compile, linker.Link, Rebuild/Watch/Serve/Dispose/Cancel, option parsing).
+   None of them defers a recover wrapper: the API layer relies on the recover wrappers of the
+   bundler (parseFile) and the linker (recoverInternalError); a panic raised in pkg/api or cmd/esbuild
+   code itself inside one of these goroutines terminates the process.  The functions that spawn
+   build-running goroutines without a wrapper are pinned: a new one breaks the obligation. *)
+Definition runs_build (s : spawn) : bool := match sp_sinks s with [] => false | _ => true end.
+
+Definition known_unprotected_spawners : list string :=
+  ["internalContext.Watch"; "internalContext.Serve"; "watcher.start";
+   "serviceType.handleIncomingPacket"; "serviceType.handleBuildRequest"].
+
+Definition service_spawn_ok (s : spawn) : bool :=
+  negb (runs_build s) || Nat.leb 1 (sp_recover s) || existsb (String.eqb (sp_func s)) known_unprotected_spawners.
+
+Lemma service_goroutines_all : forall s, In s service_spawn_sites -> runs_build s = true ->
+  (1 <= sp_recover s)%nat \/ In (sp_func s) known_unprotected_spawners.
+Proof.
+  assert (H : forallb service_spawn_ok service_spawn_sites = true) by (vm_compute; reflexivity).
+  intros s Hin Hr. pose proof (proj1 (forallb_forall _ _) H s Hin) as H1.
+  unfold service_spawn_ok in H1. rewrite Hr in H1. cbn [negb orb] in H1.
+  apply orb_true_iff in H1 as [H1|H1].
+  - left. apply Nat.leb_le. exact H1.
+  - right. apply existsb_exists in H1 as [x [Hx E]]. apply String.eqb_eq in E. subst x. exact Hx.
+Qed.
+
+(* the current state, kept visible: no goroutine of the API/service layer has a recover wrapper *)
+Lemma service_goroutines_none_recovers :
+  forallb (fun s => Nat.eqb (sp_recover s) 0) service_spawn_sites = true.
+Proof. vm_compute. reflexivity. Qed.
